@@ -23,26 +23,41 @@ func c10Apt(fmtpVal string) (string, bool) {
 	return c15HasApt(cdc{Line: f[1]})
 }
 
-// source list of a section's transceiver: its preferences if it has any
-func c10Source(c pcCase, r pcResult, i int) []cdc {
-	if c.Answer {
-		if i < len(r.Assoc) && r.Assoc[i] >= 0 {
-			return c.Locals[r.Assoc[i]].Prefs
+// source list of a section's transceiver: its preferences if it has any.
+// ex == nil: a first offer, section i belongs to the i-th added transceiver.
+func c10Source(r pcResult, ex *pcExchange, i int) []cdc {
+	if ex != nil {
+		if i < len(ex.Local) && ex.Local[i] >= 0 {
+			return r.Added[ex.Local[i]].Prefs
 		}
 		return nil
 	}
-	if i < len(c.Locals) {
-		return c.Locals[i].Prefs
+	if i < len(r.Added) {
+		return r.Added[i].Prefs
 	}
 	return nil
 }
 
-func c10CheckSection(c pcCase, r pcResult, i int, s pcSection) (string, string) {
+// every offer the remote has sent up to and including exchange k
+func c10OffersUpTo(r pcResult, k int) [][]rsec {
+	var out [][]rsec
+	for j := 0; j <= k && j < len(r.Exchanges); j++ {
+		out = append(out, r.Exchanges[j].Offer)
+	}
+	return out
+}
+
+func c10CheckSection(c pcCase, r pcResult, k int, i int, s pcSection) (string, string) {
+	var ex *pcExchange
+	if c.Answer {
+		ex = &r.Exchanges[k]
+	}
+	offers := c10OffersUpTo(r, k)
 	listed := map[string]int{}
 	for _, f := range s.Formats {
 		listed[f]++
 	}
-	src := c10Source(c, r, i)
+	src := c10Source(r, ex, i)
 	for f, n := range listed {
 		if n > 1 {
 			pt, _ := strconv.Atoi(f)
@@ -61,14 +76,19 @@ func c10CheckSection(c pcCase, r pcResult, i int, s pcSection) (string, string) 
 			case zero > 0 && same+zero > 1:
 				return "codec-preferences-pt0-resolved-to-listed-pt", fmt.Sprintf("section %d lists payload type %s %d times (preferences with payload type 0 took a payload type already listed)", i, f, n)
 			}
-			if c.Answer && i < len(r.Assoc) && r.Assoc[i] < 0 {
-				// transceiver created from the remote description: the offer lists one
+			if ex != nil && i < len(ex.Local) && ex.Local[i] < 0 {
+				// transceiver created from a remote description: an offer lists one
 				// codec (same name, clock, channels, fmtp-equivalent) under two payload types
-				off := c.Remote[i].Codecs
-				for a := range off {
-					for b := a + 1; b < len(off); b++ {
-						if off[a].PT != off[b].PT && strings.EqualFold(off[a].Name, off[b].Name) {
-							return "remote-duplicate-codec-answered-under-one-pt", fmt.Sprintf("section %d lists payload type %s %d times; offered %v", i, f, n, off)
+				for _, offer := range offers {
+					if i >= len(offer) {
+						continue
+					}
+					off := offer[i].Codecs
+					for a := range off {
+						for b := a + 1; b < len(off); b++ {
+							if off[a].PT != off[b].PT && strings.EqualFold(off[a].Name, off[b].Name) {
+								return "remote-duplicate-codec-answered-under-one-pt", fmt.Sprintf("section %d lists payload type %s %d times; offered %v", i, f, n, off)
+							}
 						}
 					}
 				}
@@ -99,8 +119,10 @@ func c10CheckSection(c pcCase, r pcResult, i int, s pcSection) (string, string) 
 			pool := src
 			if len(pool) == 0 {
 				pool = append(append([]cdc{}, c.Video...), c.Audio...)
-				for _, rs := range c.Remote {
-					pool = append(pool, rs.intended()...)
+				for _, offer := range offers {
+					for _, rs := range offer {
+						pool = append(pool, rs.intended()...)
+					}
 				}
 			}
 			for _, p := range pool {
@@ -125,10 +147,12 @@ func c10CheckSection(c pcCase, r pcResult, i int, s pcSection) (string, string) 
 		if len(l) > 1 {
 			sig := "extmap-uri-duplicate"
 			seen := map[int]bool{}
-			for _, rs := range c.Remote {
-				for _, e := range rs.Exts {
-					if e.URI == uri {
-						seen[e.ID] = true
+			for _, offer := range offers {
+				for _, rs := range offer {
+					for _, e := range rs.Exts {
+						if e.URI == uri {
+							seen[e.ID] = true
+						}
 					}
 				}
 			}
@@ -141,10 +165,12 @@ func c10CheckSection(c pcCase, r pcResult, i int, s pcSection) (string, string) 
 	for id := range ids {
 		if id < 1 || id > 14 {
 			sig := "extmap-id-outside-1-14"
-			for _, rs := range c.Remote {
-				for _, e := range rs.Exts {
-					if e.ID == id {
-						sig = "remote-extmap-id-outside-1-14-echoed"
+			for _, offer := range offers {
+				for _, rs := range offer {
+					for _, e := range rs.Exts {
+						if e.ID == id {
+							sig = "remote-extmap-id-outside-1-14-echoed"
+						}
 					}
 				}
 			}
@@ -162,27 +188,41 @@ func c10Run(c pcCase) (V, Verdict) {
 	}
 	scen := "offer"
 	if c.Answer {
-		scen = "answer"
-	}
-	if r.Outcome != "ok" {
-		return obs, Pass(scen+"/"+strings.SplitN(r.Outcome, ":", 2)[0]+"-error", false)
+		scen = fmt.Sprintf("answer%d", len(c.Pre)+1)
 	}
 	v := Pass("", false)
 	live, next := 0, 0
-	for i, s := range r.Sections {
-		if s.Rejected {
-			continue
-		}
-		live++
-		next += len(s.Exts)
-		if sig, what := c10CheckSection(c, r, i, s); sig != "" && v.OK {
-			v = Fail(sig, what)
+	check := func(k int, secs []pcSection) {
+		for i, s := range secs {
+			if s.Rejected {
+				continue
+			}
+			live++
+			next += len(s.Exts)
+			if sig, what := c10CheckSection(c, r, k, i, s); sig != "" && v.OK {
+				v = Fail(sig, fmt.Sprintf("exchange %d: %s", k, what))
+			}
 		}
 	}
-	if v.OK {
+	last := r.Outcome
+	if !c.Answer {
+		check(0, r.Sections)
+	} else {
+		for k, ex := range r.Exchanges {
+			last = ex.Outcome
+			check(k, ex.Sections)
+		}
+	}
+	if !v.OK {
+		return obs, v
+	}
+	if last != "ok" {
+		v.Class = scen + "/" + strings.SplitN(last, ":", 2)[0] + "-error"
 		v.NonTrivial = live > 0
-		v.Class = fmt.Sprintf("%s/live%d/exts%d", scen, live, min(next, 9)/3*3)
+		return obs, v
 	}
+	v.NonTrivial = live > 0
+	v.Class = fmt.Sprintf("%s/live%d/exts%d", scen, min(live, 6)/2*2, min(next, 9)/3*3)
 	return obs, v
 }
 
@@ -235,6 +275,17 @@ func c10Corpus(answer bool) []pcCase {
 			// RTX whose apt names an RTX that has no primary
 			{Video: []cdc{vp8, {Mime: "video/rtx", Clock: 90000, Line: "apt=99", PT: 97}, {Mime: "video/rtx", Clock: 90000, Line: "apt=97", PT: 100}}, Multi: true,
 				Locals: []pcTrans{{Kind: 2, Dir: 1}}},
+			// more header extensions for one kind than there are one-byte ids: the ones
+			// beyond the 14th are left out
+			{Video: []cdc{vp8}, Multi: true,
+				Exts: func() []pcExtReg {
+					var l []pcExtReg
+					for i := 0; i < 17; i++ {
+						l = append(l, pcExtReg{URI: fmt.Sprintf("urn:x:ext:%d", i), Kind: 2})
+					}
+					return l
+				}(),
+				Locals: []pcTrans{{Kind: 2, Dir: 1}}},
 			// local id assignment: three extensions, both kinds
 			{Video: []cdc{vp8}, Audio: []cdc{{Mime: "audio/opus", Clock: 48000, Ch: 2, PT: 111}}, Multi: true,
 				Exts:   []pcExtReg{{URI: mid, Kind: 2}, {URI: mid, Kind: 1}, {URI: "urn:x:a", Kind: 2, Dirs: []int{1}}, {URI: "urn:x:b", Kind: 1}},
@@ -250,6 +301,10 @@ func c10Corpus(answer bool) []pcCase {
 			Remote: []rsec{
 				{Kind: "video", Codecs: []rcodec{{Name: "VP8", Clock: 90000, PT: 96}}, Exts: []rext{{ID: 20, URI: mid}}},
 				{Kind: "video", Codecs: []rcodec{{Name: "VP8", Clock: 90000, PT: 96}}, Exts: []rext{{ID: 3, URI: mid}}}}},
+		// repaired (fix: setCodecPreferencesFromRemoteDescription removes the matched media
+		// engine codec): one codec offered under two payload types used to be answered "123 123"
+		{Audio: []cdc{{Mime: "audio/telephone-event", Clock: 8000, PT: 101}}, Multi: true, Answer: true,
+			Remote: []rsec{{Kind: "audio", Codecs: []rcodec{{Name: "telephone-event", Clock: 8000, PT: 123}, {Name: "telephone-event", Clock: 8000, PT: 124}}}}},
 		// duplicate payload type through SetCodecPreferences
 		{Video: []cdc{vp8, vp9}, Multi: true, Answer: true,
 			Locals: []pcTrans{{Kind: 2, Dir: 1, Prefs: []cdc{vp8, {Mime: "video/VP9", Clock: 90000, Line: "profile-id=0", PT: 96}}}},
